@@ -139,11 +139,50 @@ def from_config_shape(cname, f):
   raise Fail(f"{cname}.from_config has an unknown preprocessing step: {src}")
 
 
+def cond_formula(cname, node):
+  """Python condition -> Coq cform over opaque atoms (attribute tests)"""
+  if isinstance(node, ast.BoolOp):
+    parts = [cond_formula(cname, v) for v in node.values]
+    op = "CAnd" if isinstance(node.op, ast.And) else "COr"
+    out = parts[0]
+    for q in parts[1:]:
+      out = f"({op} {out} {q})"
+    return out
+  if isinstance(node, ast.UnaryOp) and isinstance(node.op, ast.Not):
+    return f"(CNot {cond_formula(cname, node.operand)})"
+  s = ast.unparse(node)
+  import re
+  m = re.fullmatch(r"self\.(\w+)", s)
+  if m:
+    return f"(CAtom {coq_str(m.group(1))})"
+  m = re.fullmatch(r"self\.(\w+) is not None", s)
+  if m:
+    return f"(CAtom {coq_str(m.group(1) + ' is not None')})"
+  m = re.fullmatch(r"self\.(\w+) != ([\w.]+)", s)
+  if m:
+    return f"(CAtom {coq_str(m.group(1) + ' != ' + m.group(2))})"
+  m = re.fullmatch(r"isinstance\(self\.(\w+), (\w+(?:\.\w+)*)\)", s)
+  if m:
+    return f"(CAtom {coq_str(m.group(1) + ' isinstance ' + m.group(2))})"
+  raise Fail(f"{cname}.__str__: unsupported condition {s}")
+
+
+def printed_param(cname, what):
+  import re
+  if what == "integer_bits":
+    return "integer"
+  m = re.search(r"self\.(\w+)", what)
+  if not m:
+    raise Fail(f"{cname}.__str__: cannot find the printed attribute in {what}")
+  return m.group(1)
+
+
 def str_table(cname, f):
   """list of (condition source, kind, what) for every emitted flag"""
   rows = []
 
   def flag_rows(cond, node):
+    cond = "CTrue" if not cond else cond
     s = ast.unparse(node)
     if s.startswith("'") or s.startswith('"'):
       # 'name=' + ...   or  a literal like 'keep_negative=False'
@@ -158,7 +197,7 @@ def str_table(cname, f):
         raise Fail(f"{cname}.__str__: cannot classify flag {s}")
       rows.append((cond, "kw", lit.split("=")[0]))
     else:
-      rows.append((cond, "pos", s))
+      rows.append((cond, "pos", printed_param(cname, s)))
 
   def walk(stmts, cond):
     for st in stmts:
@@ -170,10 +209,10 @@ def str_table(cname, f):
       elif isinstance(st, ast.Expr) and isinstance(st.value, ast.Call) and ast.unparse(st.value.func) == "flags.append":
         flag_rows(cond, st.value.args[0])
       elif isinstance(st, ast.If):
-        c = ast.unparse(st.test)
-        walk(st.body, (cond + " and " if cond else "") + "(" + c + ")")
+        c = cond_formula(cname, st.test)
+        walk(st.body, f"(CAnd {cond} {c})" if cond else c)
         if st.orelse:
-          walk(st.orelse, (cond + " and " if cond else "") + "not (" + c + ")")
+          walk(st.orelse, f"(CAnd {cond} (CNot {c}))" if cond else f"(CNot {c})")
       elif isinstance(st, (ast.Assign, ast.Return, ast.Expr, ast.Assert, ast.FunctionDef)):
         continue   # local helpers (list_to_str), temporaries, the final return
       else:
@@ -197,7 +236,7 @@ def callees(path):
 def emit(outdir):
   os.makedirs(outdir, exist_ok=True)
   hdr = ("(* GENERATED on every run by tools/translate/qmeta.py from " + REPO + "/qkeras -- do not edit *)\n"
-         "From Coq Require Import String List.\nImport ListNotations.\nOpen Scope string_scope.\n")
+         "From Coq Require Import String List.\nFrom QV Require Import Parse.StrTable.\nImport ListNotations.\nOpen Scope string_scope.\n")
   try:
     tree = ast.parse(open(os.path.join(REPO, "qkeras", "quantizers.py")).read())
     metas = class_meta(tree)
@@ -211,9 +250,9 @@ def emit(outdir):
                 ";\n".join(rows) + "\n ].")
     srows = []
     for m in metas:
-      tbl = coq_list([f"({coq_str(c)}, {coq_str(k)}, {coq_str(w)})" for c, k, w in (m["str"] or [])])
+      tbl = coq_list([f"({c}, {'true' if k == 'pos' else 'false'}, {coq_str(w)})" for c, k, w in (m["str"] or [])])
       srows.append(f"  ({coq_str(m['name'])}, {tbl})")
-    body.append("Definition gen_str_tables : list (string * list (string * string * string)) :=\n [\n" + ";\n".join(srows) + "\n ].")
+    body.append("Definition gen_str_tables : list (string * list (cform * bool * string)) :=\n [\n" + ";\n".join(srows) + "\n ].")
     # registry: every decorated class registers under its own name (register_quantizer uses __name__)
     reg = ast.parse(open(os.path.join(REPO, "qkeras", "quantizer_registry.py")).read())
     regsrc = ast.unparse(reg)
@@ -226,7 +265,7 @@ def emit(outdir):
     text = (hdr + "Definition translation_ok : bool := false.\n"
             f"Definition translation_failed : string := {coq_str(str(e))}.\n"
             "Definition gen_classes : list (string * list (string * string) * list string * string) := [].\n"
-            "Definition gen_str_tables : list (string * list (string * string * string)) := [].\n"
+            "Definition gen_str_tables : list (string * list (cform * bool * string)) := [].\n"
             "Definition gen_registry_by_class_name : bool := false.\n"
             "Definition gen_safe_eval_callees : list string := [\"<translation failed>\"].\n")
   path = os.path.join(outdir, "QMeta.v")
